@@ -196,6 +196,14 @@ def parseTraps (s : String) : Option (List Trap) :=
 
 def kernelCosts : Biogo.PalsKernel.Costs := Biogo.Spec.PalsKernel.palsCosts
 
+/-- strict lexicographic order on the coordinates and the score (`hitLe` without equality) -/
+def hitLt (a b : Hit) : Bool :=
+  if a.abpos ≠ b.abpos then a.abpos < b.abpos
+  else if a.bbpos ≠ b.bbpos then a.bbpos < b.bbpos
+  else if a.aepos ≠ b.aepos then a.aepos < b.aepos
+  else if a.bepos ≠ b.bepos then a.bepos < b.bepos
+  else a.score < b.score
+
 def hitLe (a b : Hit) : Bool :=
   if a.abpos ≠ b.abpos then a.abpos < b.abpos
   else if a.bbpos ≠ b.bbpos then a.bbpos < b.bbpos
@@ -203,13 +211,13 @@ def hitLe (a b : Hit) : Bool :=
   else if a.bepos ≠ b.bepos then a.bepos < b.bepos
   else a.score ≤ b.score
 
-/-- `AlignTraps` of the model (kernel, suppression with stable sorts) and `dropSelfMatches`:
+/-- `AlignTraps` of the model (kernel, then suppression with merge sorts on both coordinates) and `dropSelfMatches`:
     the emitted hits and the returned ones -/
 def modelAlign (target working : Array Nat) (traps : List Trap) (k minLen minIdMilli : Int) (dropSelf : Bool)
     (split : Bool := false) : List Biogo.PalsKernel.KHit × List Hit :=
   let em := Biogo.PalsKernel.emittedWith split kernelCosts ⟨target, working⟩ traps k minLen (1000 - minIdMilli) 1000
-  let kept := suppress (fun l => l.mergeSort fun a b => a.abpos ≤ b.abpos) (fun l => l.mergeSort fun a b => a.aepos ≤ b.aepos)
-    (em.map (·.h))
+  -- for `split = false` this is `Biogo.PalsKernel.alignTraps` (`alignTraps_sound`)
+  let kept := Biogo.PalsKernel.suppressed em
   let kept := if dropSelf then kept.filter (fun h => !(h.abpos == h.bbpos && h.aepos == h.bepos)) else kept
   (em, kept)
 
@@ -335,6 +343,16 @@ def handleCase (self : Bool) (minLen minIdMilli maxMemMB : Int) (plants : List P
         -- trivial self match
         let trivial := self && hits.any fun o => o.strand == 0 && o.h.abpos == o.h.bbpos && o.h.aepos == o.h.bepos
         if trivial then fail "trivial-self-match-reported" tags else
+        -- the suppression of `AlignTraps` ("remove lower scoring segments that begin or end at the same point as a
+        -- higher scoring segment"; `alignTraps_sound`): no two hits of a strand share a start point, no two an end point
+        let sharing := hits.find? fun o => hits.any fun p =>
+          p.strand == o.strand && hitLt o.h p.h &&
+          ((p.h.abpos == o.h.abpos && p.h.bbpos == o.h.bbpos) || (p.h.aepos == o.h.aepos && p.h.bepos == o.h.bepos))
+        let twice := hits.find? fun o => (hits.filter fun p => p.strand == o.strand && p.h == o.h).length > 1
+        match twice, sharing with
+        | some o, _ => fail s!"hit-reported-twice {showHit o}" tags
+        | none, some o => fail s!"two-hits-share-a-start-or-an-end-point {showHit o}" tags
+        | none, none =>
         let boundary := plants.filter (·.cls == 1)
         let tags := tags ++
           (if boundary.any (fun p => demanded self target query working1 n e p) then ["boundary-guaranteed"] else []) ++
